@@ -124,6 +124,10 @@ func workerMain(tier string) int {
 		stage("resp-merge")
 		stageRespMerge(run, p, ids)
 	}
+	if want("long-history") {
+		stage("long-history")
+		stageLongHistory(run, ids)
+	}
 	stage("opid-set")
 	ids.check(run)
 	if want("race") {
